@@ -102,7 +102,7 @@ for pid in ids:
             "replay_cmd_template": f"./check {pid} quick --replay {{path}}",
             "engine": "nexrad-verif" if pid != "C20" else "featmatrix",
             "level_claimed": {"category": "exploration", "text": text, "design_ref": ref},
-            "level_note": note,
+            "level_note": note + (" Run under two builds of the harness: default (release + debug assertions + overflow checks) and cargo profile nodebug (a user's --release build)." if pid in ("C07", "C08", "C10", "C11", "C12", "C16", "C19") else ""),
             "technique": tech,
         })
 na = [{"property_id": pid, "reason": NOT_YET.get(pid, "check not built yet (work in progress; see DESIGN.md §4 for the planned generator and oracle)")}
